@@ -154,6 +154,21 @@ mod helper {
         out
     }
 
+    fn serde_attrs_of(owner: &str, attrs: &[syn::Attribute]) -> Vec<String> {
+        attrs
+            .iter()
+            .filter_map(|a| {
+                let m = &a.meta;
+                let t = quote::quote!(#m).to_string().replace(' ', "");
+                if t.contains("serde") {
+                    Some(format!("{}:{}", owner, t))
+                } else {
+                    None
+                }
+            })
+            .collect()
+    }
+
     /// the operator impls in the generated code: `op lhs rhs out forms`
     fn impls_of(code: TokenStream) -> String {
         let file: syn::File = match syn::parse2(code) {
@@ -164,6 +179,9 @@ mod helper {
         let mut consts: Vec<String> = Vec::new();
         let mut variants: Vec<String> = Vec::new();
         let mut other_items: Vec<String> = Vec::new();
+        // every attribute of the generated struct / enum, their fields and variants that mentions serde: how a
+        // value is serialised is decided here, whatever the format
+        let mut serde_attrs: Vec<String> = Vec::new();
         // what the GENERATED accessor functions return per variant: fn -> (variant -> value)
         let mut arms: std::collections::BTreeMap<String, std::collections::BTreeMap<String, String>> =
             std::collections::BTreeMap::new();
@@ -270,11 +288,19 @@ mod helper {
                     consts.push(format!("{}={}", c.ident, v));
                 }
                 syn::Item::Enum(e) => {
+                    serde_attrs.extend(serde_attrs_of(&e.ident.to_string(), &e.attrs));
                     for v in &e.variants {
                         variants.push(v.ident.to_string());
+                        serde_attrs.extend(serde_attrs_of(&format!("{}::{}", e.ident, v.ident), &v.attrs));
                     }
                 }
-                syn::Item::Struct(_) => {}
+                syn::Item::Struct(st) => {
+                    serde_attrs.extend(serde_attrs_of(&st.ident.to_string(), &st.attrs));
+                    for (k, f) in st.fields.iter().enumerate() {
+                        let n = f.ident.as_ref().map(|i| i.to_string()).unwrap_or_else(|| k.to_string());
+                        serde_attrs.extend(serde_attrs_of(&format!("{}.{}", st.ident, n), &f.attrs));
+                    }
+                }
                 // anything else at the top level of the generated code is not something a definition generates:
                 // a macro invocation (which may expand to further impls), a function, a static, a module, ...
                 syn::Item::Macro(m) => {
@@ -313,7 +339,8 @@ mod helper {
             .iter()
             .map(|v| format!("{},{},{},{},{}", v, look("name", v), look("symbol", v), look("si_prefix", v), look("scale", v)))
             .collect();
-        format!("{} # consts {} # variants {} # arms {} # items {}", out.join("; "), consts.join(","), variants.join(","), per_variant.join(" | "), other_items.join(","))
+        serde_attrs.sort();
+        format!("{} # consts {} # variants {} # arms {} # items {} # serde {}", out.join("; "), consts.join(","), variants.join(","), per_variant.join(" | "), other_items.join(","), serde_attrs.join(";"))
     }
 
     /// the sequence of `quantity()` in qty-macros/src/lib.rs
